@@ -80,6 +80,10 @@ def gen_index(i: int, seed: int, tier: str) -> dict[str, Any]:
         flt = [rng.random() < 0.7 for _ in range(5)]
         host = rng.choice(HOSTF)
         creds = "keyring" if host != "none" else rng.choice(["direct", "none", "none"])
+    # a gateway may refuse or ignore tunnel connections (no free slot, overloaded): whatever the client falls back to must
+    # still not be a service the gateway announces as secured
+    for g in gws:
+        g["connect"] = rng.choice(["ok", "ok", "ok", "refuse", "drop"])
     return {"seed": seed, "tier": "S", "config": {"filter": flt, "host": host, "creds": creds, "batch": 1,
                                                    "backbone": rng.random() < 0.3}, "gateways": gws, "ops": []}
 
@@ -115,6 +119,10 @@ def run(plan: dict[str, Any]) -> dict[str, Any]:
     for i, g in enumerate(plan["gateways"]):
         gws.append(DiscGateway(net, random.Random(plan["seed"] + i), dict(g, name=f"gw{i}"), ip=f"10.0.0.{10 + i}",
                                ind_addr=W.ia(1, i + 1, 0)))
+        if g.get("connect", "ok") != "ok":
+            beh = {"k": "error", "status": 0x24} if g["connect"] == "refuse" else {"k": "drop"}
+            gws[-1].script = dict(gws[-1].script or {}, connect=[beh] * 6)
+            R.extra_faults["tunnel_connect_" + g["connect"]] += 1
     flt = cfg["filter"]
     scan_filter = GatewayScanFilter(tunnelling=flt[0], tunnelling_tcp=flt[1], routing=flt[2], secure_tunnelling=flt[3],
                                     secure_routing=flt[4])
